@@ -31,6 +31,16 @@ Theorem C13_eventually_closed : forall (w : bool) (mx th : Z) (ops : list op) (c
 Proof. intros w mx th ops c H k. apply inv_eventually_closed, Inv_reach, H. Qed.
 Print Assumptions C13_eventually_closed.
 
+(* a scheduled replacement is never lost: while _is_replacing is set on an open pool, exactly one _replace task is queued or
+   running -- whatever made connection attempts fail (ReplaceConnect false stands for ANY exception of the connect) *)
+Theorem C13_replacement_not_abandoned : forall (w : bool) (mx th : Z) (ops : list op),
+  0 <= mx ->
+  let s := run (init w mx th) ops in
+  replacing s = true -> shut s = false ->
+  (length (queue s) + length (connecting s) + length (assigning s) + length (finishing s) = 1)%nat.
+Proof. intros w mx th ops H s. apply (proj2 (Inv2_reach w mx th ops H)). Qed.
+Print Assumptions C13_replacement_not_abandoned.
+
 (* non-vacuous: connection 0 crosses the threshold with one live request left, is replaced (trashed, still open),
    a new borrow gets connection 1, and the last return closes connection 0 *)
 Definition C13_hist : list op :=
